@@ -10,8 +10,8 @@ active ++ out-of-order files (newest first) ++ ordered files.
 
 What is transcribed from the code:
 * a write batch is applied row by row, a later row of a batch wins, field-wise;
-* one WAL record per batch, written to partition `writeReq mod N` (the counter is never reset
-  while the shard is open);
+* one WAL record per batch, written to partition `writeReq mod N`; the counter restarts at
+  every switch (flush) — `fixed = true`; at the pinned commit it was never reset (`fixed = false`);
 * flush = switch + split of every series' rows at that series' last flushed time into an ordered
   file (strictly newer rows) and an out-of-order file (the rest); the WAL of the flushed table
   is dropped;
@@ -53,11 +53,15 @@ def Row.cells (r : Row) : List Cell := r.fields.map fun (f, v) => ⟨r.s, r.t, f
 /-- cells of a batch in precedence order (the last row of the batch first). -/
 def batchCells (b : List Row) : List Cell := (b.reverse.map Row.cells).flatten
 
-/-- per-series last flushed time. -/
-def lastFlushOf (lf : List (Nat × Int)) (s : Nat) : Option Int :=
-  match lf.find? (·.1 = s) with
-  | some p => some p.2
-  | none => none
+/-- per-series last flushed time: the largest time recorded for the series. -/
+def lastFlushOf : List (Nat × Int) → Nat → Option Int
+  | [], _ => none
+  | (s', t) :: rest, s =>
+    if s' = s then
+      match lastFlushOf rest s with
+      | none => some t
+      | some m => some (max t m)
+    else lastFlushOf rest s
 
 /-- a cell is newer than everything flushed so far for its series. -/
 def isOrdered (lf : List (Nat × Int)) (c : Cell) : Bool :=
@@ -65,12 +69,10 @@ def isOrdered (lf : List (Nat × Int)) (c : Cell) : Bool :=
   | none => true
   | some m => decide (m < c.t)
 
-def updLastFlush (lf : List (Nat × Int)) (c : Cell) : List (Nat × Int) :=
-  match lastFlushOf lf c.s with
-  | none => (c.s, c.t) :: lf
-  | some m => if m < c.t then (c.s, c.t) :: lf.filter (·.1 ≠ c.s) else lf
+def updLastFlush (lf : List (Nat × Int)) (c : Cell) : List (Nat × Int) := (c.s, c.t) :: lf
 
 structure St where
+  fixed : Bool                           -- WAL counter restarts at a switch (repaired code)
   nParts : Nat
   ctr : Nat                              -- writeReq
   wal : List (Nat × List Row)            -- records since the last switch, oldest first: (partition, batch)
@@ -80,7 +82,7 @@ structure St where
   lastFlush : List (Nat × Int)
 deriving Repr
 
-def St.init (n : Nat) : St := ⟨n, 0, [], [], [], [], []⟩
+def St.init (n : Nat) (fixed : Bool := true) : St := ⟨fixed, n, 0, [], [], [], [], []⟩
 
 /-- everything a reader consults, in precedence order. -/
 def St.cells (st : St) : List Cell := st.active ++ st.ooo.flatten ++ st.ordered.flatten
@@ -93,6 +95,7 @@ def St.write (st : St) (b : List Row) : St :=
 
 /-- flush of the active table (switch, split, commit, drop the WAL of the flushed table). -/
 def St.flush (st : St) : St :=
+  let st := { st with ctr := if st.fixed then 0 else st.ctr }
   if st.active = [] then { st with wal := [] }
   else
     let ord := st.active.filter (isOrdered st.lastFlush)
@@ -113,17 +116,26 @@ def St.mergeOOO (st : St) : St :=
   if st.ooo = [] then st
   else { st with ooo := [], ordered := [st.ooo.flatten ++ st.ordered.flatten] }
 
-/-- `consumeRecordSerial`: one record from each non-empty partition in turn, starting at
-partition 0, until all are empty. `fuel` bounds the number of rounds. -/
+/-- one round of `consumeRecordSerial`: the first remaining record of every partition in
+`ps`, in that order; returns the batches taken and the records left. -/
+def popRound : List Nat → List (Nat × List Row) → List (List Row) × List (Nat × List Row)
+  | [], recs => ([], recs)
+  | p :: ps, recs =>
+    match recs.find? (·.1 = p) with
+    | some r =>
+      let (h, rest) := popRound ps (recs.eraseP (·.1 = p))
+      (r.2 :: h, rest)
+    | none => popRound ps recs
+
+/-- `consumeRecordSerial`: rounds over the partitions 0 … n-1 until no record is left.
+`fuel` bounds the number of rounds. -/
 def roundRobin (n : Nat) : Nat → List (Nat × List Row) → List (List Row)
   | 0, _ => []
   | fuel + 1, recs =>
     if recs = [] then []
     else
-      -- first remaining record of every partition, in partition order
-      let heads := (List.range n).filterMap fun p => recs.find? (·.1 = p)
-      let rest := (List.range n).foldl (fun acc p => acc.eraseP (·.1 = p)) recs
-      heads.map (·.2) ++ roundRobin n fuel rest
+      let (h, rest) := popRound (List.range n) recs
+      h ++ roundRobin n fuel rest
 
 /-- clean close + reopen: the memtable is rebuilt from the WAL in replay order, then flushed. -/
 def St.reopen (st : St) : St :=
@@ -133,30 +145,35 @@ def St.reopen (st : St) : St :=
 
 /-! ### read -/
 
-def insertSorted (x : Int) : List Int → List Int
+section sorted
+variable {α : Type} [LT α] [DecidableLT α] [DecidableEq α]
+
+/-- insertion into a strictly increasing list (duplicates dropped). -/
+def insertSorted (x : α) : List α → List α
   | [] => [x]
   | y :: ys => if x < y then x :: y :: ys else if x = y then y :: ys else y :: insertSorted x ys
 
-def sortedTimes (xs : List Int) : List Int := xs.foldr insertSorted []
-
-def insertSortedNat (x : Nat) : List Nat → List Nat
-  | [] => [x]
-  | y :: ys => if x < y then x :: y :: ys else if x = y then y :: ys else y :: insertSortedNat x ys
+def sortDistinct (xs : List α) : List α := xs.foldr insertSorted []
+end sorted
 
 /-- rows returned for one series: distinct times in range, ascending or descending, with the
 requested fields looked up; a row none of whose requested fields has a value is not returned. -/
 def readSeries (cells : List Cell) (s : Nat) (lo hi : Int) (asc : Bool) (fields : List String) :
     List (Nat × Int × List (Option String)) :=
-  let ts := sortedTimes ((cells.filter fun c => c.s = s ∧ lo ≤ c.t ∧ c.t ≤ hi).map (·.t))
+  let ts := sortDistinct ((cells.filter fun c => c.s = s ∧ lo ≤ c.t ∧ c.t ≤ hi).map (·.t))
   let ts := if asc then ts else ts.reverse
   ts.filterMap fun t =>
     let vals := fields.map fun f => lookup (s, t, f) cells
     if vals.any Option.isSome then some (s, t, vals) else none
 
+/-- the read over a precedence-ordered cell list: series ascending, times ascending or
+descending inside a series. -/
+def readCells (cells : List Cell) (lo hi : Int) (asc : Bool) (fields : List String) :
+    List (Nat × Int × List (Option String)) :=
+  (sortDistinct (cells.map (·.s))).flatMap fun s => readSeries cells s lo hi asc fields
+
 def St.read (st : St) (lo hi : Int) (asc : Bool) (fields : List String) :
     List (Nat × Int × List (Option String)) :=
-  let cells := st.cells
-  let ss := (cells.map (·.s)).foldr insertSortedNat []
-  ss.flatMap fun s => readSeries cells s lo hi asc fields
+  readCells st.cells lo hi asc fields
 
 end OG.C02
